@@ -38,7 +38,13 @@ static const char *ss_name(int rc) {
  * length, so a side that delivered a trailer contributes no header bytes. */
 static int64_t hdr_bytes(const htp_table_t *t) {
     int64_t n = 0;
-    for (size_t i = 0, m = t ? htp_table_size(t) : 0; i < m; i++) { htp_header_t *h = htp_table_get_index(t, i, NULL); if (h) n += (int64_t) (h->name ? bstr_len(h->name) : 0) + (int64_t) (h->value ? bstr_len(h->value) : 0); }
+    for (size_t i = 0, m = t ? htp_table_size(t) : 0; i < m; i++) {
+        htp_header_t *h = htp_table_get_index(t, i, NULL); if (!h) continue;
+        n += (int64_t) (h->name ? bstr_len(h->name) : 0) + (int64_t) (h->value ? bstr_len(h->value) : 0);
+        /* a repeated field is joined with ", ": with bare-LF lines and no field name (colon-less lines) the two joining bytes replace a single
+         * wire byte, so every possible join is taken off again */
+        if ((h->flags & HTP_FIELD_REPEATED) && h->value) { const uint8_t *v = bstr_ptr(h->value); size_t L = bstr_len(h->value); for (size_t k = 0; k + 1 < L; k++) if (v[k] == ',' && v[k + 1] == ' ') n -= 2; }
+    }
     return n;
 }
 static void monitor_wire(htp_connp_t *c, const hx_script *s, hx_obs *o) {
